@@ -10,15 +10,18 @@ from sim.orch import H  # noqa: E402
 PROP = "C17"
 LEVEL = "exploration"
 RULE = (
-    "case = 1-6 valid sources + ONE defect (D1 two files decoding to the same codepoint sequence, D1g two distinct "
-    "sequences with the same glyph name, D1n same file name in two directories, D2 unparsable XML, D3 unsupported fill / "
-    "spreadMethod, D4 one palette index with two colours, D5 masters with different source sets, D6 CBDT bitmap > 255 px), "
-    "defect position in argv, colour format (only cells where the class applies), schedule and -j drawn from the seed; "
-    "half of the cases start from a build directory that already holds a successful build of the valid subset; the "
-    "defective command is run twice. Oracle: exit status != 0 and the output font is absent or untouched (same stamp and "
-    "digest as before the invocation). distinct = (defect class, format, warm/cold, argv position bucket, failing rule); "
-    "non-trivial = the defective invocation got as far as running at least one build step or was rejected by the driver "
-    "with the defect present in its resolved inputs."
+    "case = 1-6 valid sources + ONE defect (D1 two files decoding to the same codepoint sequence, D1g two distinct sequences "
+    "with the same glyph name (g_ prefix, or U+000A..F vs a..f), D1n same file name in two directories - also as a config file "
+    "plus a namesake on the command line, D1v duplicates inside every master of a variable font, D2 unparsable XML, D3 one of "
+    "ten unsupported colour / spreadMethod strings, D4 one palette index with two colours, D5 masters with different source "
+    "sets (three shapes, both master orders), D6 CBDT bitmap > 255 px, D7 radial gradient under a non-uniform transform in "
+    "OT-SVG), defect position in argv, colour format (only cells where the class applies), schedule and -j drawn from the "
+    "seed; cold build directory or one warmed by the valid subset / by the defective file's own name with valid content / by "
+    "same-named valid files from another directory; alone or together with a healthy second configuration; the defective "
+    "command is run twice. Oracle: exit status != 0 and the output font is absent or untouched (same stamp and digest as "
+    "before the invocation). distinct = (defect class, format, warm-up kind, companion, argv position bucket, failing rule); "
+    "non-trivial = the defective invocation got as far as running at least one build step or was rejected by the driver with "
+    "the defect present in its resolved inputs."
 )
 ASSUMPTIONS = [
     "applicability of a defect class to a colour format follows the property's wording (paint defects only where nanoemoji interprets paint; palette conflicts only in COLR builds)",
